@@ -82,7 +82,7 @@ bool matches (const long double* truth, const long double* got, int n, long doub
 
 struct Tal
 {
-    long long n = 0, tr = 0, lin = 0, quad2 = 0, quad1 = 0, quad0 = 0, quadgraded = 0, cubdouble = 0, cub3 = 0, cub1_qpos = 0, cub1_qneg = 0, cub1_q0 = 0, triple = 0,
+    long long n = 0, tr = 0, lin = 0, quad2 = 0, quad1 = 0, quad0 = 0, quadgraded = 0, cubdouble = 0, scaled = 0, cub3 = 0, cub1_qpos = 0, cub1_qneg = 0, cub1_q0 = 0, triple = 0,
               deleg = 0, illcond = 0, inexact = 0;
 };
 
@@ -250,6 +250,29 @@ template <class T> void roots_stage (const std::string& tn)
                                Msg () << x[0] << " " << x[1] << " " << x[2]);
                 if (!exact && bound > 0) R ().note_max (ep + "<" + tn + "> " + cls + " error / bound", (double) std::min (worst / bound, 1e30L)); // capped: the report is JSON (no inf)
             }
+            // solveCubic normalises by its leading coefficient: multiplying ALL coefficients by an exact power of two — down
+            // to where the leading coefficient is subnormal (its reciprocal would overflow, the quotients b/a, c/a, d/a do
+            // not) and up to where it is huge — must not change the answer at all (correctly rounded division is
+            // invariant under an exact common scaling)
+            if (entry == 0)
+            {
+                const bool dbl = std::numeric_limits<T>::digits > 30;
+                const int  SC[2] = {dbl ? -1030 : -135, dbl ? 900 : 100};
+                for (int q = 0; q < 2; ++q)
+                {
+                    T as = (T) std::ldexp ((double) a, SC[q]), bs = (T) std::ldexp ((double) b, SC[q]), cs = (T) std::ldexp ((double) c, SC[q]), ds = (T) std::ldexp ((double) d, SC[q]);
+                    // exactness of the scaling (subnormals have fewer bits)
+                    if ((T) std::ldexp ((double) as, -SC[q]) != a || (T) std::ldexp ((double) bs, -SC[q]) != b || (T) std::ldexp ((double) cs, -SC[q]) != c || (T) std::ldexp ((double) ds, -SC[q]) != d) continue;
+                    T   xs[3] = {99, 99, 99};
+                    int cs_n  = IM::solveCubic (as, bs, cs, ds, xs);
+                    ++t.tr; ++t.scaled;
+                    bool same = cs_n == cnt;
+                    for (int i = 0; same && i < cnt && i < 3; ++i) same = ex::same (xs[i], x[i]);
+                    if (!same)
+                        R ().fail ("solveCubic.invariant-under-common-power-of-two-scaling", in + " all coefficients *2^" + std::to_string (SC[q]),
+                                   Msg () << cnt << ": " << x[0] << " " << x[1] << " " << x[2], Msg () << cs_n << ": " << xs[0] << " " << xs[1] << " " << xs[2]);
+                }
+            }
         }
     };
     // three distinct real roots
@@ -355,6 +378,7 @@ template <class T> void roots_stage (const std::string& tn)
     R ().cls ("roots." + tn + ".quadratic.no-real-root", t.quad0);
     R ().cls ("roots." + tn + ".quadratic.roots-2^-k-and-m*2^k", t.quadgraded);
     R ().cls ("roots." + tn + ".cubic.double-root-plus-simple-root", t.cubdouble);
+    R ().cls ("roots." + tn + ".cubic.coefficients-scaled-to-subnormal-or-huge", t.scaled);
     R ().cls ("roots." + tn + ".cubic.three-real-roots", t.cub3);
     R ().cls ("roots." + tn + ".cubic.one-real-root.q>0", t.cub1_qpos); R ().cls ("roots." + tn + ".cubic.one-real-root.q<0", t.cub1_qneg);
     R ().cls ("roots." + tn + ".cubic.one-real-root.q=0", t.cub1_q0);
